@@ -10,12 +10,16 @@
      every step is replayed through the model's `update`.
  (D) evo_step / evo end to end for several evosax strategies, same checker; evosax's ask/tell contract is validated
      separately against the reference strategy ref_tell of Cem.v.
+ (E) precision configurations: (C) and (D) again in a child process with JAX_ENABLE_X64=1 (c18_worker.py): float64 bounds,
+     candidates and losses whose magnitude is chosen relative to float32 (differences below its resolution at a large offset, values
+     below its smallest subnormal, finite values above its maximum); same checker (losses in units of 2^-1074) and model replay.
 """
 import json, math, os
 from fractions import Fraction
 from . import lib
 
 UNIT = 2 ** 149           # every float32 is an integer multiple of 2^-149
+UNIT64 = 2 ** 1074        # every float64 is an integer multiple of 2^-1074 (the checker only compares losses: any common unit is exact)
 
 HEADER = """From Coq Require Import List ZArith QArith Qminmax Bool.
 From Rex Require Import Ops Cem.
@@ -48,25 +52,25 @@ def F(x):
 def qv(xs): return "[" + "; ".join(lib.qlit(x) for x in xs) + "]"
 
 
-def ext_of(x):
-    """a non-NaN float as the model's ext"""
+def ext_of(x, unit=UNIT):
+    """a non-NaN float as the model's ext (an integer number of 1/unit)"""
     x = float(x)
     if x == math.inf: return "PInf"
     if x == -math.inf: return "NInf"
-    n = Fraction(x) * UNIT
+    n = Fraction(x) * unit
     assert n.denominator == 1, x
     return f"(Val {lib.zlit(n.numerator)})"
 
 
-def loss_of(x):
+def loss_of(x, unit=UNIT):
     x = float(x)
-    return "NaN" if math.isnan(x) else f"(Num {ext_of(x)})"
+    return "NaN" if math.isnan(x) else f"(Num {ext_of(x, unit)})"
 
 
-def ext_val(p):
+def ext_val(p, unit=UNIT):
     """parsed (tag, v) -> float-comparable: Fraction / +-inf"""
     tag, v = p
-    return {-1: -math.inf, 1: math.inf}.get(tag, Fraction(v, UNIT) if tag == 0 else None)
+    return {-1: -math.inf, 1: math.inf}.get(tag, Fraction(v, unit) if tag == 0 else None)
 
 
 def qs(ps): return [Fraction(a, b) for (a, b) in ps]
@@ -86,10 +90,10 @@ def f32_exact(q):
 
 
 # ---------------------------------------------------------------- trees: {"a": (da,), "b": ()} flattened as a.., b
-def to_tree(flat, da, batch=None):
-    """flat: list (or list of lists when batch) of numbers -> pytree of float32 arrays"""
+def to_tree(flat, da, batch=None, dtype="float32"):
+    """flat: list (or list of lists when batch) of numbers -> pytree of float32 (or `dtype`) arrays"""
     import jax.numpy as jnp, numpy as onp
-    a = onp.asarray([[float(v) for v in row] for row in flat] if batch else [float(v) for v in flat], dtype=onp.float32)
+    a = onp.asarray([[float(v) for v in row] for row in flat] if batch else [float(v) for v in flat], dtype=onp.dtype(dtype))
     t = {}
     if batch:
         if da: t["a"] = jnp.asarray(a[:, :da])
@@ -159,10 +163,10 @@ def upd_feats(c):
 
 
 def upd_term(c):
-    st = c["st"]
-    cs = f"(Build_cstate {qv(st['mean'])} {qv(st['stdev'])} {qv(st['best'])} {ext_of(st['best_loss'])})"
+    st = c["st"]; unit = c.get("unit", UNIT)
+    cs = f"(Build_cstate {qv(st['mean'])} {qv(st['stdev'])} {qv(st['best'])} {ext_of(st['best_loss'], unit)})"
     return f"({c['ne']}%nat, {lib.qlit(c['s'])}, {cs}, [" + "; ".join(qv(x) for x in c["xs"]) + "], [" + \
-           "; ".join(loss_of(x) for x in c["ls"]) + "])"
+           "; ".join(loss_of(x, unit) for x in c["ls"]) + "])"
 
 
 def impl_upd(cases, jit_some):
@@ -252,10 +256,13 @@ def impl_gauss(cases, seeds):
 
 # ---------------------------------------------------------------- host-side losses for the end-to-end runs
 class HostLoss:
-    def __init__(self, kind, d, lo, hi, r, N):
+    def __init__(self, kind, d, lo, hi, r, N, dtype="float32", ldtype=None, offset=0.0, scale=1.0):
+        """dtype: of the candidates handed to the host; ldtype: of the loss values handed back; the loss is offset + scale * shape(x)
+        (scale > 0), evaluated in double precision on the host before it is rounded to ldtype"""
         import numpy as onp
-        self.kind, self.d, self.calls = kind, d, []
-        self.c = onp.asarray([float(l + (h - l) * Fraction(r.randint(0, 8), 8)) for l, h in zip(lo, hi)], dtype=onp.float32)
+        self.kind, self.d, self.calls, self.in_dtypes = kind, d, [], set()
+        self.dtype, self.ldtype, self.offset, self.scale = onp.dtype(dtype), onp.dtype(ldtype or dtype), float(offset), float(scale)
+        self.c = onp.asarray([float(l + (h - l) * Fraction(r.randint(0, 8), 8)) for l, h in zip(lo, hi)], dtype=self.dtype)
         self.thr = float(lo[0] + (hi[0] - lo[0]) * Fraction(r.randint(2, 6), 8))
         self.k0 = r.randint(1, 3)
         pool = [math.nan, math.nan, math.inf, 0.25, 0.5, 0.5, 1.0, 1.5, 2.0, -1.0, 3.0, 3.0]
@@ -276,11 +283,14 @@ class HostLoss:
         elif k == "scripted": l = onp.asarray(self.script[it % 64][:x.shape[0]])
         elif k == "neg-inf-once": l = onp.where((onp.arange(x.shape[0]) == 1) & (it == 1), -onp.inf, conv)
         else: raise ValueError(k)
-        return onp.asarray(l, dtype=onp.float32)
+        if (self.offset, self.scale) != (0.0, 1.0):
+            with onp.errstate(all="ignore"): l = self.offset + self.scale * onp.asarray(l, dtype=onp.float64)
+        with onp.errstate(all="ignore"): return onp.asarray(l, dtype=self.ldtype)
 
     def host(self, x):
         import numpy as onp
-        x = onp.asarray(x, dtype=onp.float32)
+        self.in_dtypes.add(str(onp.asarray(x).dtype))
+        x = onp.asarray(x, dtype=self.dtype)
         single = (x.ndim == 1)
         if single: x = x[None]
         l = self.f(x, len(self.calls))
@@ -290,7 +300,7 @@ class HostLoss:
     def loss(self, p, transform, rng):
         import jax, jax.numpy as jnp
         flat = jnp.concatenate([jnp.ravel(v) for v in jax.tree_util.tree_leaves(p)])
-        return jax.pure_callback(self.host, jax.ShapeDtypeStruct((), jnp.float32), flat, vmap_method="broadcast_all")
+        return jax.pure_callback(self.host, jax.ShapeDtypeStruct((), self.ldtype), flat, vmap_method="broadcast_all")
 
 
 KINDS = ["convex", "multimodal", "nan-region", "all-nan", "nan-then-finite", "inf-region", "quantized", "worsening", "scripted",
@@ -304,13 +314,13 @@ def gen_box(r, d):
     return lo, hi
 
 
-def iter_term(X, L, best, bl):
-    return "(Build_iter [" + "; ".join(qv([F(v) for v in row]) for row in X) + "] [" + "; ".join(loss_of(v) for v in L) + \
-           f"] {qv([F(v) for v in best])} {ext_of(bl)})"
+def iter_term(X, L, best, bl, unit=UNIT):
+    return "(Build_iter [" + "; ".join(qv([F(v) for v in row]) for row in X) + "] [" + "; ".join(loss_of(v, unit) for v in L) + \
+           f"] {qv([F(v) for v in best])} {ext_of(bl, unit)})"
 
 
-def hist_term(lo, hi, pb, prev, iters):
-    return f"({qv(lo)}, {qv(hi)}, {qv(pb)}, {ext_of(prev)}, [" + "; ".join(iters) + "])"
+def hist_term(lo, hi, pb, prev, iters, unit=UNIT):
+    return f"({qv(lo)}, {qv(hi)}, {qv(pb)}, {ext_of(prev, unit)}, [" + "; ".join(iters) + "])"
 
 
 def explain_iter(lo, hi, pb, prev, X, L, best, bl):
@@ -351,21 +361,26 @@ def gen_cem(r, big):
 
 
 def run_cem(c):
+    """c may carry pdtype (dtype of bounds / mean / candidates), ldtype (dtype of the loss values), offset / scale (loss magnitude) and
+    jit (cem_step under jax.jit): the defaults are the float32 family (C); family (E) sets them (in a child process with x64)"""
     import jax, jax.numpy as jnp, numpy as onp, random
     from rex import cem as C, base
-    da = c["da"]; d = da + 1; N = c["N"]
-    solver = C.CEMSolver.init(to_tree(c["lo"], da), to_tree(c["hi"], da), num_samples=N, evolution_smoothing=c["s"],
+    da = c["da"]; d = da + 1; N = c["N"]; pd = c.get("pdtype", "float32")
+    solver = C.CEMSolver.init(to_tree(c["lo"], da, dtype=pd), to_tree(c["hi"], da, dtype=pd), num_samples=N, evolution_smoothing=c["s"],
                               elite_portion=(c["ne"] + 0.5) / N)
-    st = solver.init_state(to_tree(c["mean"], da), to_tree([Fraction(1, 2)] * d, da) if c["custom_sd"] else None)
-    hl = HostLoss(c["kind"], d, c["lo"], c["hi"], random.Random(c["hseed"]), N)
+    st = solver.init_state(to_tree(c["mean"], da, dtype=pd), to_tree([Fraction(1, 2)] * d, da, dtype=pd) if c["custom_sd"] else None)
+    hl = HostLoss(c["kind"], d, c["lo"], c["hi"], random.Random(c["hseed"]), N, dtype=c.get("hdtype", pd), ldtype=c.get("ldtype", pd),
+                  offset=c.get("offset", 0.0), scale=c.get("scale", 1.0))
     tr = base.Identity.init()
     states = [dict(mean=flat_of(st.mean), stdev=flat_of(st.stdev), best=flat_of(st.bestsofar), bl=float(st.bestsofar_loss))]
     key = jax.random.PRNGKey(c["seed"])
     ret_losses = []
     if c["mode"] == "step":
+        step = (lambda s_, k_: C.cem_step(hl.loss, solver, s_, tr, k_))
+        if c.get("jit"): step = jax.jit(step)
         for i in range(c["steps"]):
             key, sub = jax.random.split(key)
-            st, ls = C.cem_step(hl.loss, solver, st, tr, sub)
+            st, ls = step(st, sub)
             ret_losses.append(onp.asarray(ls))
             states.append(dict(mean=flat_of(st.mean), stdev=flat_of(st.stdev), best=flat_of(st.bestsofar), bl=float(st.bestsofar_loss)))
     elif c["mode"] == "scan2":
@@ -380,6 +395,7 @@ def run_cem(c):
         st, ls = C.cem(hl.loss, solver, st, tr, max_steps=c["steps"], rng=key, verbose=False)
         ret_losses = list(onp.asarray(ls))
         states.append(dict(mean=flat_of(st.mean), stdev=flat_of(st.stdev), best=flat_of(st.bestsofar), bl=float(st.bestsofar_loss)))
+    states[0]["cand_dtypes"] = sorted(hl.in_dtypes)
     return states, hl.calls, ret_losses
 
 
@@ -403,11 +419,12 @@ def gen_evo(r, strat, big):
 def run_evo(c):
     import jax, jax.numpy as jnp, numpy as onp, random, io, contextlib
     from rex import evo as E, base
-    da = c["da"]; d = da + 1
+    da = c["da"]; d = da + 1; pd = c.get("pdtype", "float32")
     with contextlib.redirect_stdout(io.StringIO()):
-        es = E.EvoSolver.init(to_tree(c["lo"], da), to_tree(c["hi"], da), c["strategy"], strategy_kwargs=dict(popsize=c["N"]))
-        st = es.init_state(to_tree(c["mean"], da), jax.random.PRNGKey(c["seed"] ^ 5))
-    hl = HostLoss(c["kind"], d, c["lo"], c["hi"], random.Random(c["hseed"]), c["N"])
+        es = E.EvoSolver.init(to_tree(c["lo"], da, dtype=pd), to_tree(c["hi"], da, dtype=pd), c["strategy"], strategy_kwargs=dict(popsize=c["N"]))
+        st = es.init_state(to_tree(c["mean"], da, dtype=pd), jax.random.PRNGKey(c["seed"] ^ 5))
+    hl = HostLoss(c["kind"], d, c["lo"], c["hi"], random.Random(c["hseed"]), c["N"], dtype=c.get("hdtype", pd), ldtype=c.get("ldtype", pd),
+                  offset=c.get("offset", 0.0), scale=c.get("scale", 1.0))
     tr = base.Identity.init()
     clip = tuple([float(v) for v in onp.broadcast_to(onp.asarray(getattr(es.strategy_params, k)), (d,))] for k in ("clip_min", "clip_max"))
     states = [dict(best=[float(v) for v in onp.asarray(st.best_member)], bl=float(st.best_fitness))]
@@ -420,6 +437,7 @@ def run_evo(c):
     else:
         st, _, ls = E.evo(hl.loss, es, st, tr, max_steps=c["steps"], rng=key, verbose=False)
         states.append(dict(best=[float(v) for v in onp.asarray(st.best_member)], bl=float(st.best_fitness)))
+    states[0]["cand_dtypes"] = sorted(hl.in_dtypes)
     return states, hl.calls, clip
 
 
@@ -447,6 +465,163 @@ def contract_cases(r, strat, n):
     return out
 
 
+# ---------------------------------------------------------------- (E) precision configurations: 64-bit mode in a child process
+# loss = offset + scale * shape(x), evaluated in double precision on the host.  The magnitudes are chosen relative to float32:
+# differences far below its resolution at the offset, values below its smallest subnormal, finite values above its maximum.
+MAGNITUDES = {
+    "plain": (0.0, 1.0),
+    "offset-fine": (1000.0, 1e-6),           # float32 spacing at 1000 is 6.1e-5
+    "neg-offset-fine": (-1.0e6, 1e-7),       # float32 spacing at 1e6 is 6.25e-2
+    "offset-dyadic": (1.0, 2.0 ** -40),
+    "tiny": (0.0, 1e-60),                    # the smallest positive float32 is 1.4e-45
+    "huge": (1e39, 1e39),                    # the largest finite float32 is 3.4e38
+}
+EVO_X64 = ["CMA_ES", "DE", "SimpleGA", "OpenES"]
+
+
+def gen_prec_cases(r, big):
+    """cem / cem_step with float64 bounds, candidates and (mostly) float64 losses; evo_step with float64 bounds and float32 losses
+    (evosax 0.1.6 itself raises a TypeError in get_best_fitness_member when it is handed float64 fitness)"""
+    out = []
+    mags = list(MAGNITUDES)
+    for i in range(9 if not big else 40):
+        c = gen_cem(r, big)
+        if c["kind"] == "all-nan" and r.random() < 0.75: c["kind"] = r.choice(["convex", "nan-region", "scripted", "quantized", "multimodal"])
+        mag = mags[i % len(mags)] if i < len(mags) else r.choice(mags)       # every magnitude class in every run
+        c.update(solver="cem", pdtype="float64", hdtype="float64", ldtype=r.choice(["float64"] * 4 + ["float32"]), jit=r.random() < 0.5,
+                 mag=mag, offset=MAGNITUDES[mag][0], scale=MAGNITUDES[mag][1])
+        if i < len(mags): c["ldtype"] = "float64"
+        out.append(c)
+    for s_ in (r.sample(EVO_X64, 2) if not big else EVO_X64):
+        c = gen_evo(r, s_, big)
+        mag = r.choice(["plain", "plain", "offset-fine"])
+        c.update(solver="evo", pdtype="float64", hdtype="float64", ldtype="float32", mode="step", mag=mag, offset=MAGNITUDES[mag][0],
+                 scale=MAGNITUDES[mag][1])
+        out.append(c)
+    return out
+
+
+def prec_feats(c, calls):
+    """what the losses of this run exercise relative to float32"""
+    import numpy as onp
+    f = ["x64", "magnitude:" + c["mag"], "loss-dtype:" + c["ldtype"]] + (["jit"] if c.get("jit") else [])
+    with onp.errstate(all="ignore"):
+        for _, L in calls:
+            fin = onp.unique(L[onp.isfinite(L)])
+            if fin.size and onp.unique(fin.astype(onp.float32)).size < fin.size and "losses-differ-below-float32-resolution" not in f:
+                f.append("losses-differ-below-float32-resolution")
+            if fin.size and (onp.isinf(fin.astype(onp.float32)).any() or ((fin != 0) & (fin.astype(onp.float32) == 0)).any()) \
+                    and "finite-loss-outside-float32-range" not in f:
+                f.append("finite-loss-outside-float32-range")
+    return f
+
+
+def run_prec(chk, cases, hist_jobs, upd_jobs):
+    import numpy as onp
+    if not cases: return
+    worker = os.path.join(os.path.dirname(os.path.abspath(__file__)), "c18_worker.py")
+    env = dict(lib.CHILD_ENV, PYTHONPATH=lib.REPO, VERIF_REPO=lib.REPO, JAX_ENABLE_X64="1")
+    rc, o, e, dt = lib.sh([lib.PY, worker], inp=json.dumps([repr(c) for c in cases]), env=env, timeout=900)
+    mark = "@@C18-WORKER-RESULT@@"
+    if rc != 0 or mark not in o:
+        chk.broke("x64-child-failed", f"rc={rc}: {(o + e)[-1200:]}"); return
+    res = json.loads(o[o.index(mark) + len(mark):])
+    if not res["x64"] or len(res["results"]) != len(cases):
+        chk.broke("x64-child-failed", f"x64={res['x64']}, {len(res['results'])} results for {len(cases)} cases"); return
+    chk.feat("x64-child-seconds", int(dt))
+    for c, x in zip(cases, res["results"]):
+        which = c["solver"] + "-x64"
+        case = dict(kind=which, gen=repr(c), jax_enable_x64=True)
+        if "error" in x:
+            chk.violation(which + "-raises", f"{c['solver']} raised with jax_enable_x64 (float64 bounds, {c['ldtype']} losses): {x['error']}", case); continue
+        calls = [(onp.asarray(X, dtype=onp.float64).reshape(len(L), -1), onp.asarray(L, dtype=onp.float64)) for X, L in x["calls"]]
+        states = x["states"]
+        xf = prec_feats(c, calls)
+        for dtn in states[0].get("cand_dtypes", []): chk.feat(f"{which}:candidate-dtype:{dtn}")
+        if c["solver"] == "cem":
+            judge_cem(chk, c, case, states, calls, [onp.asarray(l, dtype=onp.float64) for l in x["ret"]], which, UNIT64, xf, hist_jobs, upd_jobs)
+        else:
+            judge_evo(chk, c, case, states, calls, x["clip"], which, UNIT64, xf, hist_jobs)
+
+
+# ---------------------------------------------------------------- judging one end-to-end run (families C, D, E)
+def judge_cem(chk, c, case, states, calls, ret, which, unit, xfeats, hist_jobs, upd_jobs):
+    """which: label of the family in signatures ("cem" / "cem-x64"); unit: common denominator of the loss values"""
+    import numpy as onp
+    feats = [which + "-" + c["mode"], "loss:" + c["kind"]] + (["one-elite"] if c["ne"] == 1 else []) + \
+            (["mean-outside-bounds"] if any(m < l or m > h for m, l, h in zip(c["mean"], c["lo"], c["hi"])) else []) + xfeats
+    if any(onp.isnan(L).any() for _, L in calls): feats.append("nan-loss")
+    chk.case((which, repr(c)), feats, dict(kind=case["kind"], N=c["N"], elites=c["ne"], smoothing=c["s"], loss=c["kind"], steps=c["steps"],
+                                          mode=c["mode"], first_losses=[repr(float(v)) for v in calls[0][1][:8]] if calls else []))
+    chk.traces_impl += 1
+    nsteps = c["steps"] if c["mode"] != "scan2" else max(1, c["steps"] // 2) + max(1, c["steps"] - c["steps"] // 2)
+    if len(calls) != nsteps:
+        chk.broke(which + "-host-loss-call-count", f"{len(calls)} populations seen for {nsteps} steps"); return
+    for (X, L), rl in zip(calls, ret):
+        if not onp.array_equal(L, onp.asarray(rl), equal_nan=True):
+            chk.violation(which + "-returned-losses-differ", "the losses returned by cem/cem_step are not the evaluated ones", case)
+    nanbl = next((i for i, s1 in enumerate(states) if math.isnan(s1["bl"]) or any(math.isnan(v) for v in s1["best"])), None)
+    if nanbl is not None:
+        chk.violation(which + "-history:best-is-nan", f"cem: the reported best (candidate, loss) after {nanbl} iteration(s) is "
+                      f"({states[nanbl]['best']}, {states[nanbl]['bl']!r})", dict(case, iteration=nanbl)); return
+    if c["mode"] == "step":
+        iters = [iter_term(X, L, s1["best"], s1["bl"], unit) for (X, L), s1 in zip(calls, states[1:])]
+        data = [(X, L, s1["best"], s1["bl"]) for (X, L), s1 in zip(calls, states[1:])]
+        # the smoothing factor is a python float: a weakly typed scalar, i.e. rounded to the dtype of the mean it multiplies
+        sm = F(onp.float32(c["s"])) if c.get("pdtype", "float32") == "float32" else F(c["s"])
+        for i, ((X, L), s0, s1) in enumerate(zip(calls, states[:-1], states[1:])):
+            uc = dict(N=c["N"], ne=c["ne"], da=c["da"], s=sm, xs=[[F(v) for v in row] for row in X],
+                      ls=[(math.nan if math.isnan(float(v)) else float(v)) for v in L],
+                      st=dict(mean=[F(v) for v in s0["mean"]], stdev=[F(v) for v in s0["stdev"]], best=[F(v) for v in s0["best"]],
+                              best_loss=s0["bl"]), unit=unit, label=which)
+            upd_jobs.append((case, i, uc, s1))
+    elif c["mode"] == "scan2":
+        iters = []; data = []; off = 0
+        for s1 in states[1:]:
+            seg = calls[off:off + s1["legsteps"]]; off += s1["legsteps"]
+            X2 = onp.concatenate([X for X, _ in seg]); L2 = onp.concatenate([L for _, L in seg])
+            iters.append(iter_term(X2, L2, s1["best"], s1["bl"], unit)); data.append((X2, L2, s1["best"], s1["bl"]))
+    else:
+        allX = onp.concatenate([X for X, _ in calls]); allL = onp.concatenate([L for _, L in calls])
+        iters = [iter_term(allX, allL, states[-1]["best"], states[-1]["bl"], unit)]
+        data = [(allX, allL, states[-1]["best"], states[-1]["bl"])]
+    hist_jobs.append((which, case, c["lo"], c["hi"], states[0]["best"], states[0]["bl"], iters, data, unit))
+
+
+def judge_evo(chk, c, case, states, calls, clip, which, unit, xfeats, hist_jobs):
+    import numpy as onp
+    feats = [which + "-" + c["mode"], "strategy:" + c["strategy"], "loss:" + c["kind"]] + xfeats
+    if any(onp.isnan(L).any() for _, L in calls): feats.append("nan-loss")
+    chk.case((which, repr(c)), feats, dict(kind=case["kind"], strategy=c["strategy"], popsize=c["N"], loss=c["kind"], steps=c["steps"], mode=c["mode"]))
+    chk.traces_impl += 1
+    if [list(v) for v in clip] != [[float(v) for v in c["lo"]], [float(v) for v in c["hi"]]]:
+        chk.violation(which + "-clip-bounds", f"EvoSolver.init hands clip_min/clip_max = {clip} to evosax for bounds "
+                      f"{[float(v) for v in c['lo']]}, {[float(v) for v in c['hi']]}", case); return
+    # NaN candidates are reported before anything else: they are what a poisoned strategy state produces
+    nanc = next(((i, X) for i, (X, _) in enumerate(calls) if onp.isnan(X).any()), None)
+    if nanc is not None:
+        i, X = nanc
+        prevnan = any(onp.isnan(L).any() or onp.isinf(L).any() for _, L in calls[:i])
+        sig = "evo:nan-or-inf-loss-makes-value-based-strategy-sample-nan-candidates" if (prevnan and c["strategy"] in VALUE_BASED) \
+            else which + "-candidate-nan"
+        chk.violation(sig, f"strategy {c['strategy']}: after a generation with a NaN/inf loss (handed to tell as +inf) the "
+                      f"population of generation {i} contains NaN candidates (outside the bounds); every later loss is NaN",
+                      dict(case, generation=i, first_candidate=[float(v) for v in X[0]]))
+        return
+    nanbl = next((i for i, s1 in enumerate(states) if math.isnan(s1["bl"]) or any(math.isnan(v) for v in s1["best"])), None)
+    if nanbl is not None:
+        chk.violation(which + "-history:best-is-nan", f"evo: the reported best (member, fitness) after {nanbl} generation(s) is "
+                      f"({states[nanbl]['best']}, {states[nanbl]['bl']!r})", dict(case, iteration=nanbl)); return
+    if c["mode"] == "step":
+        iters = [iter_term(X, L, s1["best"], s1["bl"], unit) for (X, L), s1 in zip(calls, states[1:])]
+        data = [(X, L, s1["best"], s1["bl"]) for (X, L), s1 in zip(calls, states[1:])]
+    else:
+        allX = onp.concatenate([X for X, _ in calls]); allL = onp.concatenate([L for _, L in calls])
+        iters = [iter_term(allX, allL, states[-1]["best"], states[-1]["bl"], unit)]
+        data = [(allX, allL, states[-1]["best"], states[-1]["bl"])]
+    hist_jobs.append((which, case, c["lo"], c["hi"], states[0]["best"], states[0]["bl"], iters, data, unit))
+
+
 # ---------------------------------------------------------------- the run
 def run(chk, replay=None):
     chk.stage_proofs(kernels=["Solver"])
@@ -455,7 +630,7 @@ def run(chk, replay=None):
     big = chk.tier != "quick"
     rp = json.load(open(replay)) if replay else None
     rkind = rp["case"].get("kind") if rp else None
-    if rkind not in ("update", "cem", "evo") or "gen" not in rp["case"]: rp = rkind = None     # not replayable alone: full run
+    if rkind not in ("update", "cem", "evo", "cem-x64", "evo-x64") or "gen" not in rp["case"]: rp = rkind = None     # not replayable alone: full run
 
     # ---- (A)
     n_upd = 0 if (rp and rkind != "update") else (150 if not big else 1500)
@@ -501,7 +676,7 @@ def run(chk, replay=None):
                 chk.notes.append("gaussian_samples no longer draws through jax.random.normal once per leaf: exact comparison skipped")
 
     # ---- (C)
-    hist_jobs = []      # (label, case dict, hist term, per-iteration data for explanations)
+    hist_jobs = []      # (label, case dict, lo, hi, previous best, previous loss, iteration terms, per-iteration data, unit)
     upd_jobs = []
     if not rp or rkind == "cem":
         ccases = [gen_cem(r, big) for _ in range(10 if not big else 60)]
@@ -512,42 +687,7 @@ def run(chk, replay=None):
                 states, calls, ret = run_cem(c)
             except Exception as e:  # noqa
                 chk.violation("cem-raises", f"cem/cem_step raised: {type(e).__name__}: {str(e)[:300]}", case); continue
-            feats = ["cem-" + c["mode"], "loss:" + c["kind"]] + (["one-elite"] if c["ne"] == 1 else []) + \
-                    (["mean-outside-bounds"] if any(m < l or m > h for m, l, h in zip(c["mean"], c["lo"], c["hi"])) else [])
-            if any(onp.isnan(L).any() for _, L in calls): feats.append("nan-loss")
-            chk.case(("cem", repr(c)), feats, dict(kind="cem", N=c["N"], elites=c["ne"], smoothing=c["s"], loss=c["kind"], steps=c["steps"],
-                                                  mode=c["mode"], first_losses=[repr(float(v)) for v in calls[0][1][:8]] if calls else []))
-            chk.traces_impl += 1
-            nsteps = c["steps"] if c["mode"] != "scan2" else max(1, c["steps"] // 2) + max(1, c["steps"] - c["steps"] // 2)
-            if len(calls) != nsteps:
-                chk.broke("cem-host-loss-call-count", f"{len(calls)} populations seen for {nsteps} steps"); continue
-            for (X, L), rl in zip(calls, ret):
-                if not onp.array_equal(L, onp.asarray(rl), equal_nan=True):
-                    chk.violation("cem-returned-losses-differ", "the losses returned by cem/cem_step are not the evaluated ones", case)
-            nanbl = next((i for i, s1 in enumerate(states) if math.isnan(s1["bl"]) or any(math.isnan(v) for v in s1["best"])), None)
-            if nanbl is not None:
-                chk.violation("cem-history:best-is-nan", f"cem: the reported best (candidate, loss) after {nanbl} iteration(s) is "
-                              f"({states[nanbl]['best']}, {states[nanbl]['bl']!r})", dict(case, iteration=nanbl)); continue
-            if c["mode"] == "step":
-                iters = [iter_term(X, L, s1["best"], s1["bl"]) for (X, L), s1 in zip(calls, states[1:])]
-                data = [(X, L, s1["best"], s1["bl"]) for (X, L), s1 in zip(calls, states[1:])]
-                for i, ((X, L), s0, s1) in enumerate(zip(calls, states[:-1], states[1:])):
-                    uc = dict(N=c["N"], ne=c["ne"], da=c["da"], s=F(onp.float32(c["s"])), xs=[[F(v) for v in row] for row in X],
-                              ls=[(math.nan if math.isnan(float(v)) else float(v)) for v in L],
-                              st=dict(mean=[F(v) for v in s0["mean"]], stdev=[F(v) for v in s0["stdev"]], best=[F(v) for v in s0["best"]],
-                                      best_loss=s0["bl"]))
-                    upd_jobs.append((case, i, uc, s1))
-            elif c["mode"] == "scan2":
-                iters = []; data = []; off = 0
-                for s1 in states[1:]:
-                    seg = calls[off:off + s1["legsteps"]]; off += s1["legsteps"]
-                    X2 = onp.concatenate([X for X, _ in seg]); L2 = onp.concatenate([L for _, L in seg])
-                    iters.append(iter_term(X2, L2, s1["best"], s1["bl"])); data.append((X2, L2, s1["best"], s1["bl"]))
-            else:
-                allX = onp.concatenate([X for X, _ in calls]); allL = onp.concatenate([L for _, L in calls])
-                iters = [iter_term(allX, allL, states[-1]["best"], states[-1]["bl"])]
-                data = [(allX, allL, states[-1]["best"], states[-1]["bl"])]
-            hist_jobs.append(("cem", case, c["lo"], c["hi"], states[0]["best"], states[0]["bl"], iters, data))
+            judge_cem(chk, c, case, states, calls, ret, "cem", UNIT, [], hist_jobs, upd_jobs)
 
     # ---- (D)
     tell_jobs = []
@@ -563,53 +703,24 @@ def run(chk, replay=None):
                 states, calls, clip = run_evo(c)
             except Exception as e:  # noqa
                 chk.violation("evo-raises", f"evo/evo_step raised: {type(e).__name__}: {str(e)[:300]}", case); continue
-            feats = ["evo-" + c["mode"], "strategy:" + c["strategy"], "loss:" + c["kind"]]
-            if any(onp.isnan(L).any() for _, L in calls): feats.append("nan-loss")
-            chk.case(("evo", repr(c)), feats, dict(kind="evo", strategy=c["strategy"], popsize=c["N"], loss=c["kind"], steps=c["steps"], mode=c["mode"]))
-            chk.traces_impl += 1
-            if clip != ([float(v) for v in c["lo"]], [float(v) for v in c["hi"]]):
-                chk.violation("evo-clip-bounds", f"EvoSolver.init hands clip_min/clip_max = {clip} to evosax for bounds "
-                              f"{[float(v) for v in c['lo']]}, {[float(v) for v in c['hi']]}", case); continue
-            # NaN candidates are reported before anything else: they are what a poisoned strategy state produces
-            nanc = next(((i, X) for i, (X, _) in enumerate(calls) if onp.isnan(X).any()), None)
-            if nanc is not None:
-                i, X = nanc
-                prevnan = any(onp.isnan(L).any() or onp.isinf(L).any() for _, L in calls[:i])
-                sig = "evo:nan-or-inf-loss-makes-value-based-strategy-sample-nan-candidates" if (prevnan and c["strategy"] in VALUE_BASED) \
-                    else "evo-candidate-nan"
-                chk.violation(sig, f"strategy {c['strategy']}: after a generation with a NaN/inf loss (handed to tell as +inf) the "
-                              f"population of generation {i} contains NaN candidates (outside the bounds); every later loss is NaN",
-                              dict(case, generation=i, first_candidate=[float(v) for v in X[0]]))
-                continue
-            nanbl = next((i for i, s1 in enumerate(states) if math.isnan(s1["bl"]) or any(math.isnan(v) for v in s1["best"])), None)
-            if nanbl is not None:
-                chk.violation("evo-history:best-is-nan", f"evo: the reported best (member, fitness) after {nanbl} generation(s) is "
-                              f"({states[nanbl]['best']}, {states[nanbl]['bl']!r})", dict(case, iteration=nanbl)); continue
-            if c["mode"] == "step":
-                iters = [iter_term(X, L, s1["best"], s1["bl"]) for (X, L), s1 in zip(calls, states[1:])]
-                data = [(X, L, s1["best"], s1["bl"]) for (X, L), s1 in zip(calls, states[1:])]
-            elif c["mode"] == "scan2":
-                iters = []; data = []; off = 0
-                for s1 in states[1:]:
-                    seg = calls[off:off + s1["legsteps"]]; off += s1["legsteps"]
-                    X2 = onp.concatenate([X for X, _ in seg]); L2 = onp.concatenate([L for _, L in seg])
-                    iters.append(iter_term(X2, L2, s1["best"], s1["bl"])); data.append((X2, L2, s1["best"], s1["bl"]))
-            else:
-                allX = onp.concatenate([X for X, _ in calls]); allL = onp.concatenate([L for _, L in calls])
-                iters = [iter_term(allX, allL, states[-1]["best"], states[-1]["bl"])]
-                data = [(allX, allL, states[-1]["best"], states[-1]["bl"])]
-            hist_jobs.append(("evo", case, c["lo"], c["hi"], states[0]["best"], states[0]["bl"], iters, data))
+            judge_evo(chk, c, case, states, calls, clip, "evo", UNIT, [], hist_jobs)
         if not rp:
             for s_ in strategies:
                 try: tell_jobs += contract_cases(r, s_, 3 if not big else 8)
                 except Exception as e:  # noqa
                     chk.broke(f"evosax-contract:{s_}", f"{type(e).__name__}: {str(e)[:200]}")
 
+    # ---- (E) precision configurations (child process with JAX_ENABLE_X64=1)
+    if not rp or rkind in ("cem-x64", "evo-x64"):
+        pcases = gen_prec_cases(r, big)
+        if rp: pcases = [eval(rp["case"]["gen"], dict(Fraction=Fraction))]
+        run_prec(chk, pcases, hist_jobs, upd_jobs)
+
     # ---- Coq: histories through the checker, steps through the model, evosax against the reference strategy
     if hist_jobs:
-        res = lib.coq_eval_sharded("C18_hist", HEADER, "run_hist", [hist_term(lo, hi, [F(v) for v in pb], prev, iters)
-                                                                      for (_, _, lo, hi, pb, prev, iters, _) in hist_jobs], per=4)
-        for (which, case, lo, hi, pb, prev, iters, data), (ok, flags) in zip(hist_jobs, res):
+        res = lib.coq_eval_sharded("C18_hist", HEADER, "run_hist", [hist_term(lo, hi, [F(v) for v in pb], prev, iters, unit)
+                                                                      for (_, _, lo, hi, pb, prev, iters, _, unit) in hist_jobs], per=4)
+        for (which, case, lo, hi, pb, prev, iters, data, _), (ok, flags) in zip(hist_jobs, res):
             chk.feat("histories-checked"); chk.feat("iterations-checked", len(flags))
             if ok and all(flags): continue
             i = flags.index(False)
@@ -622,18 +733,18 @@ def run(chk, replay=None):
         res = lib.coq_eval_sharded("C18_replay", HEADER, "run_upd", [upd_term(uc) for (_, _, uc, _) in upd_jobs], per=40)
         for (case, i, uc, s1), mo in zip(upd_jobs, res):
             chk.feat("steps-replayed-through-model")
-            m_mean, m_var, m_best, m_bl = qs(mo[0]), qs(mo[1]), qs(mo[2]), ext_val(mo[3])
-            cs = dict(case, iteration=i)
+            m_mean, m_var, m_best, m_bl = qs(mo[0]), qs(mo[1]), qs(mo[2]), ext_val(mo[3], uc.get("unit", UNIT))
+            cs = dict(case, iteration=i); lab = uc.get("label", "cem") + "-step"
             if not same_num(s1["bl"], m_bl) or [F(v) for v in s1["best"]] != m_best:
-                chk.violation("cem-step:best", f"cem_step iteration {i}: (bestsofar, loss) = ({s1['best']}, {s1['bl']!r}) but the model's "
-                              f"update on the same population gives ({[float(v) for v in m_best]}, {m_bl!r})", cs); continue
+                chk.violation(lab + ":best", f"cem_step iteration {i}: (bestsofar, loss) = ({s1['best']}, {s1['bl']!r}) but the model's "
+                              f"update on the same population gives ({[float(v) for v in m_best]}, {(float(m_bl) if isinstance(m_bl, Fraction) else m_bl)!r})", cs); continue
             for k, (a, b) in enumerate(zip(s1["mean"], m_mean)):
                 if abs(a - float(b)) > 2e-5 * (abs(float(b)) + 1):
-                    chk.violation("cem-step:mean", f"cem_step iteration {i}: mean[{k}] = {a!r}, model {float(b)!r} (elites {mo[4]})", cs); break
+                    chk.violation(lab + ":mean", f"cem_step iteration {i}: mean[{k}] = {a!r}, model {float(b)!r} (elites {mo[4]})", cs); break
             for k, (a, v) in enumerate(zip(s1["stdev"], m_var)):
                 want = float(uc["s"]) * float(uc["st"]["stdev"][k]) + (1 - float(uc["s"])) * math.sqrt(float(v))
                 if abs(a - want) > 1e-4 * (abs(want) + 1):
-                    chk.violation("cem-step:stdev", f"cem_step iteration {i}: stdev[{k}] = {a!r}, model {want!r}", cs); break
+                    chk.violation(lab + ":stdev", f"cem_step iteration {i}: stdev[{k}] = {a!r}, model {want!r}", cs); break
     if tell_jobs:
         terms = ["([" + "; ".join(qv([F(v) for v in row]) for row in j["X"]) + "], [" + "; ".join(ext_of(v) for v in j["fit"]) +
                  f"], ({qv([F(v) for v in j['prev'][0]])}, {ext_of(j['prev'][1])}))" for j in tell_jobs]
@@ -666,7 +777,10 @@ def run(chk, replay=None):
         "inf / equal to / just below / just above the new minimum; (B) gaussian_samples with dyadic mean/stdev/bounds/noise; "
         "(C) cem_step / cem with a host-side loss (convex, multimodal, NaN region, all NaN, NaN then finite, inf region, quantized "
         "with ties, worsening, scripted per evaluation, -inf once), N in 4..16 (thorough ..64), elite counts 1..N, smoothing 0..1, "
-        "initial mean inside/outside the box, zero-width coordinates; (D) evo_step / evo for evosax strategies with the same losses. "
+        "initial mean inside/outside the box, zero-width coordinates; (D) evo_step / evo for evosax strategies with the same losses; "
+        "(E) the generators of (C) and (D) in a child process with jax_enable_x64: float64 bounds / candidates, losses offset + scale * "
+        "shape(x) for every magnitude class of MAGNITUDES (plain, fine differences at offsets 1000 / -1e6 / 1, 1e-60, 1e39) as float64 "
+        "(CEM; sometimes rounded to float32) or float32 (evo_step), cem_step plain and under jax.jit, cem, cem continued by a second cem. "
         "A case is non-trivial when it has at least one of the listed features (every generated case names its loss mode / "
         "strategy; see `features` for NaN, ties at the elite boundary, fewer finite losses than elites, ties with the previous "
         "best); distinct by full case description.")
@@ -675,7 +789,11 @@ def run(chk, replay=None):
                     "every run against Cem.ref_tell; enters the theorems as the hypothesis evo_contract",
                     "jax.pure_callback(vmap_method='broadcast_all') delivering each population to the host-side loss in order",
                     "unittest.mock replacement of jax.random.normal for the exact comparison of gaussian_samples"]
-    chk.notes += ["losses are exact integers in units of 2^-149 (every float32 value); candidates exact rationals",
+    chk.trusted += ["the JAX_ENABLE_X64=1 child process (harness/c18_worker.py) reporting float64 values as JSON numbers (python repr round-trips)"]
+    chk.notes += ["losses are exact integers in units of 2^-149 (every float32 value; 2^-1074 in the 64-bit family); candidates exact rationals",
+                  "64-bit family: only configurations the pinned code supports are generated - float32 bounds under x64 make cem() raise a "
+                  "scan-carry TypeError (jax.random.normal draws float64 noise) and evosax 0.1.6 raises a TypeError in "
+                  "get_best_fitness_member for float64 fitness (both loud, no iteration completes), so evo runs get float32 losses there",
                   "mean compared exactly when the elite count is a power of two and smoothing is k/4, else within 1e-5 relative; "
                   "stdev compared with s*old + (1-s)*sqrt(model variance) within 2e-5 relative (sqrt is outside Q)",
                   "the logger passed to evo() receives the raw losses (log_gen_1/mean/std become NaN for a generation with a NaN "
